@@ -17,6 +17,7 @@ check("C08", "exploration", "runtime differential monitor: idr tree vs standard-
       "DESIGN.md section 3 C08")
 
 HOOK_COMMITS.append("a527d01")
+HOOK_COMMITS.append("34aae05")
 
 check("C11", "exploration", "runtime differential monitor: idr.MatchAll vs antchfx/xmlquery navigator on a harness-built DOM, same xpath engine",
       "Held on every generated (document, expression, context) triple (quick 8e4, thorough 4e6 queries): same nodes, order and string-values as the "
@@ -129,3 +130,10 @@ check("C03", "exploration", "runtime crash/hang monitor: recover + child-death a
       "all format kits, rich declaration trees, hierarchies; JSON-level and byte-level schema mutation, adversarial families, hostile inputs incl. 1e4-1e5 nesting levels.",
       "User JavaScript that loops and caller-registered functions' own failures are outside the claim.",
       "DESIGN.md section 3 C03")
+
+check("C02", "exploration", "runtime differential monitor: Transform.Read vs an independent reference evaluator of the documented transform rules on a mirror of the live record tree",
+      "Held on every record (quick 1.6e4, thorough 6e5) of generated rich schemas over all seven formats and nested xml/json: byte-level value equality (or both fail) for "
+      "const/external/field/object/array/template/custom_func trees with shared templates, textually identical declarations on different routes, xpath and xpath_dynamic "
+      "anchors, all type/no_trim/keep_empty_or_null combinations, arrays with 0/1/many matches and >9 elements, absent arguments as zero values.",
+      "antchfx/xpath and the harness's function models are trusted; `copy` rendering is C08's; documented-unspecified outcomes are skipped; kept empty array may be null or [].",
+      "DESIGN.md section 3 C02")
